@@ -154,6 +154,11 @@ class GenericContextRegistry(
             for ctx in reversed(self._active_ctx.contexts):
                 for definition in ctx.redefinitions:
                     self._redefine(definition)
+        except Exception:
+            # Do not keep a half-built overlay for this combination of contexts.
+            del self._caches[key]
+            del self._context_units[key]
+            raise
         finally:
             self._on_redefinition = on_redefinition_backup
 
@@ -244,7 +249,14 @@ class GenericContextRegistry(
 
         # Finally we add them to the active context.
         self._active_ctx.insert_contexts(*contexts)
-        self._switch_context_cache_and_units()
+        try:
+            self._switch_context_cache_and_units()
+        except Exception:
+            # A failed activation changes nothing: take the contexts out again
+            # and go back to the cache and units of the previous combination.
+            self._active_ctx.remove_contexts(len(contexts))
+            self._switch_context_cache_and_units()
+            raise
 
     def disable_contexts(self, n: int | None = None) -> None:
         """Disable the last n enabled contexts.
